@@ -493,17 +493,20 @@ func (l *Labels) redactableArm(fn *ssa.Function, ins ssa.CallInstruction) bool {
 		if !(thenB == blk || thenB.Dominates(blk)) || len(thenB.Preds) != 1 {
 			continue
 		}
-		if l.paramsCorrelated(fn, valueParam, tparam) {
+		if l.typeOperandOf(fn, valueParam, tparam) {
 			return true
 		}
 	}
 	return false
 }
 
-func matchTypeEq(bo *ssa.BinOp) (*ssa.Parameter, *ssa.Global) {
-	try := func(x, y ssa.Value) (*ssa.Parameter, *ssa.Global) {
-		p, ok := x.(*ssa.Parameter)
-		if !ok {
+// matchTypeEq: the comparison is <type operand> == *<type variable>; the type
+// operand is a parameter or a value computed in the function.
+func matchTypeEq(bo *ssa.BinOp) (ssa.Value, *ssa.Global) {
+	try := func(x, y ssa.Value) (ssa.Value, *ssa.Global) {
+		switch x.(type) {
+		case *ssa.Parameter, *ssa.Call:
+		default:
 			return nil, nil
 		}
 		u, ok := y.(*ssa.UnOp)
@@ -514,12 +517,26 @@ func matchTypeEq(bo *ssa.BinOp) (*ssa.Parameter, *ssa.Global) {
 		if !ok {
 			return nil, nil
 		}
-		return p, g
+		return x, g
 	}
 	if p, g := try(bo.X, bo.Y); p != nil {
 		return p, g
 	}
 	return try(bo.Y, bo.X)
+}
+
+// typeOperandOf: the type operand denotes the (static) type of the value
+// parameter — it is value.Type() computed in place, or a parameter for which
+// every caller passes value.Type().
+func (l *Labels) typeOperandOf(fn *ssa.Function, valueParam *ssa.Parameter, top ssa.Value) bool {
+	switch t := top.(type) {
+	case *ssa.Call:
+		f := t.Common().StaticCallee()
+		return f != nil && f.String() == "(reflect.Value).Type" && t.Common().Args[0] == ssa.Value(valueParam)
+	case *ssa.Parameter:
+		return l.paramsCorrelated(fn, valueParam, t)
+	}
+	return false
 }
 
 // paramsCorrelated checks every static call site of fn.
